@@ -339,8 +339,72 @@ fn layered_limits(ctx: &mut Ctx) {
     }
 }
 
+/// two user layers: `all` is set in both (the later one counts), a unit asks for max_denominator 1 and another for 0
+/// (documented range 1..16, clamped), and the volume best list is one list mixing systems whose levels differ
+fn layered_limits_2(ctx: &mut Ctx) {
+    let l1 = "[fractions]\nall = { enabled = true, accuracy = 0.5, max_denominator = 16 }\n";
+    let l2 = "[fractions]\nall = { enabled = true, accuracy = 0.01, max_denominator = 2, max_whole = 3 }\nmetric = { enabled = true, max_denominator = 2 }\nimperial = { enabled = true, max_denominator = 8 }\n[fractions.unit]\ntsp = { max_denominator = 1, max_whole = 5 }\ntbsp = { max_denominator = 0 }\n\n[[quantity]]\nquantity = \"volume\"\nbest = [\"l\", \"cup\"]\n\n[[quantity]]\nquantity = \"time\"\n[quantity.units]\nunspecified = [{ names = [\"glass\"], symbols = [\"gl\"], ratio = 7 }]\n";
+    let build = || -> Option<Converter> {
+        let a: cooklang::convert::UnitsFile = toml::from_str(l1).ok()?;
+        let b: cooklang::convert::UnitsFile = toml::from_str(l2).ok()?;
+        Converter::builder().with_units_file(cooklang::convert::UnitsFile::bundled()).ok()?.with_units_file(a).ok()?.with_units_file(b).ok()?.finish().ok()
+    };
+    let Some(conv) = build() else {
+        ctx.harness_errors.push("C12: the second layered converter does not build".into());
+        return;
+    };
+    // (symbol, max_den, max_whole, accuracy): unit entry > system level > all of the LAST layer; unset accuracy is left
+    // at the loosest value that any reading of the layering could give (not judged tighter than that)
+    let limits: [(&str, u8, u32, f32); 5] = [("tsp", 1, 5, 0.05), ("tbsp", 1, u32::MAX, 0.05), ("l", 2, u32::MAX, 0.05), ("c", 8, u32::MAX, 0.05), ("gl", 2, 3, 0.01)];
+    let lim = |sym: &str| limits.iter().find(|l| l.0 == sym).copied();
+    let mut r = crate::core::Rng::new(ctx.seed ^ 0x2a7e);
+    let n = ctx.budget(6_000, 600_000);
+    for i in 0..n {
+        let (sym, ..) = limits[(i % 5) as usize];
+        let v = match i % 3 {
+            0 => (r.below(160) as f64) / 16.0,
+            1 => r.log_uniform(1e-2, 2e1),
+            _ => (r.below(8) as f64) + [0.125, 0.375, 0.5, 0.3125, 1.0 / 3.0, 0.484375][r.below(6)],
+        };
+        for op in 0..3 {
+            let mut q = Quantity::new(Value::Number(Number::Regular(v)), Some(sym.to_string()));
+            let case = Case::new("caller", format!("{v} {sym} op{op}"), 0, "layered2").with(json!({"bits": v.to_bits(), "unit": sym, "op": op}));
+            ctx.evals += 1;
+            let res = crate::core::guarded(|| match op {
+                0 => {
+                    let _ = q.try_fraction(&conv);
+                }
+                1 => {
+                    let _ = q.fit(&conv);
+                }
+                _ => {
+                    let _ = q.convert(System::Imperial, &conv);
+                }
+            });
+            if let Err(p) = res {
+                ctx.panic_violation(&case, "caller", p);
+                continue;
+            }
+            let shown = q.unit().and_then(|u| conv.find_unit(u)).map(|u| u.symbol().to_string()).unwrap_or_default();
+            let Some((_, md, mw, acc)) = lim(&shown) else { continue };
+            if let Value::Number(Number::Fraction { whole, num, den, err }) = q.value() {
+                ctx.count("layered_caller_fraction_results");
+                let val = *whole as f64 + *num as f64 / *den as f64 + err;
+                if *num > 0 && *den > md as u32 {
+                    ctx.violation(&case, "caller", "denominator_above_unit_limit", format!("{v} {sym} -> {q} but the layers give {shown} max_denominator {md}"));
+                } else if *whole > mw {
+                    ctx.violation(&case, "caller", "whole_above_unit_limit", format!("{v} {sym} -> {q} but the layers give {shown} max_whole {mw}"));
+                } else if err.abs() > acc as f64 * val * (1.0 + 1e-9) {
+                    ctx.violation(&case, "caller", "error_above_unit_accuracy", format!("{v} {sym} -> {:?} but the layers give {shown} accuracy {acc}", q.value()));
+                }
+            }
+        }
+    }
+}
+
 pub fn run(ctx: &mut Ctx) {
     layered_limits(ctx);
+    layered_limits_2(ctx);
     let vals = values(ctx);
     ctx.notes.insert("values".into(), vals.len().into());
     let (dens, accs, wholes): (Vec<u8>, Vec<f32>, Vec<u32>) = if ctx.is_thorough() {
